@@ -128,10 +128,14 @@ def run(ctx):
         for name, steps in named():
             for tr in ("tcp", "udp"):
                 rows.append({"id": len(rows), "tr": tr, "idle": 0, "steps": steps, "name": name})
+        # situations a schedule on one accepted session cannot reach
+        for tr in ("udp", "tcp"):
+            rows.append({"id": len(rows), "tr": tr, "idle": 0, "steps": [], "kind": "backlog", "n": 140, "name": "stop-server-with-140-sessions-nobody-accepted"})
+        rows.append({"id": len(rows), "tr": "tcp", "idle": 0, "steps": [], "kind": "sibling", "n": 0, "name": "close-idle-session-while-its-sibling-is-stuck-writing"})
         if ctx.thorough():
             for name, steps in named()[:8]:
                 rows.append({"id": len(rows), "tr": "udp", "idle": 65000, "steps": steps, "name": name + "-idle65s"})
-        ctx.coverage["distinct_nontrivial"] += sum(1 for r_ in rows if any(s["op"] in ("close", "mclose", "fail", "fin", "rdl", "wdl") for s in r_["steps"]))
+        ctx.coverage["distinct_nontrivial"] += sum(1 for r_ in rows if r_.get("kind")) + sum(1 for r_ in rows if any(s["op"] in ("close", "mclose", "fail", "fin", "rdl", "wdl") for s in r_["steps"]))
         ctx.sample({"kind": "schedule", "scenario": rows[0]})
         recs = run_driver(ctx, wd, rows, "life", par=16)
         ctx.coverage["evaluations"] += sum(1 for e in recs if e["ev"] == "op")
